@@ -44,6 +44,7 @@ struct AdvBus {
     good_num: u64,
     turns: Vec<Turn>,
     in_progress_run: u32,
+    cut: bool,
 }
 
 fn reply_class(r: &BusReply, own: Address) -> u32 {
@@ -142,6 +143,22 @@ impl SignBus for AdvBus {
     fn process_message<'a>(&mut self, message: Message<'_>) -> BusResult<'a> {
         let sent = to_static(&message);
         let loc = self.model.loc;
+        // Bounded liveness: after 120 turns the adversary only gives protocol-advancing replies,
+        // so every documented operation ends well before 400 messages.
+        if self.turns.len() >= 400 {
+            if self.judge == Judge::Model {
+                self.cx.fail("C10/liveness-call-does-not-end", format!("{:?}: {} messages emitted and the call still has not returned", self.model.call, self.turns.len()));
+            } else {
+                // termination is C10's business; C11's invariants have been judged on what was said
+                self.cx.probe("run_cut_at_message_cap");
+                self.cut = true;
+            }
+            if self.turns.len() >= 5_000 {
+                panic!("controller keeps talking after {} bus errors; giving up on this run", self.turns.len() - 400);
+            }
+            self.turns.push(Turn { sent, reply: BusReply::Err });
+            return Err(Box::new(SimBusError("run is over")));
+        }
         // 1. what does the documented protocol prescribe here?
         if self.judge == Judge::Model {
             match self.model.expected() {
@@ -227,8 +244,8 @@ impl Scenario for Adversary {
     }
     fn runs(&self, tier: Tier) -> u64 {
         match tier {
-            Tier::Quick => 150_000,
-            Tier::Thorough => 10_000_000,
+            Tier::Quick => 2_000_000,
+            Tier::Thorough => 200_000_000,
         }
     }
     fn describe(&self) -> &'static str {
@@ -254,7 +271,7 @@ impl Scenario for Adversary {
         let call = call_of(&op);
         let model = ControllerModel::new(addr, call.clone(), items);
         let good_num = *cx.pick(&[19u64, 16, 10, 20, 18]);
-        let bus = Rc::new(RefCell::new(AdvBus { cx: cx.clone(), addr, model, judge: self.judge, good_num, turns: Vec::new(), in_progress_run: 0 }));
+        let bus = Rc::new(RefCell::new(AdvBus { cx: cx.clone(), addr, model, judge: self.judge, good_num, turns: Vec::new(), in_progress_run: 0, cut: false }));
         let sign = Sign::new(bus.clone(), addr, t);
         cx.event("call", &(addr.0, t, op.code(), good_num));
         cx.note(|| format!("controller({:#06x}, {t:?}).{}   [good-reply bias {good_num}/20]", addr.0, op.name()));
@@ -283,6 +300,7 @@ impl Scenario for Adversary {
                     cx.probe("polled_3_or_more_times");
                 }
             }
+            Judge::Invariants if b.cut => {}
             Judge::Invariants => {
                 if let Err((class, detail)) = check_conversation(cx, addr, &call, &b.turns, &out) {
                     cx.fail(format!("C11/{class}"), format!("{call:?}: {detail}"));
